@@ -50,6 +50,25 @@ fn stamps(tier: Tier) -> Vec<i64> {
             }
         }
     }
+    if tier == Tier::Thorough {
+        // every day of 1970 and 2038 at 00:00:00 and 23:59:59, every hour of a leap day, and
+        // the first second of every century year
+        for y in [1970i64, 2038] {
+            for m in 1..=12 {
+                for d in 1..=cal::days_in_month(y, m) {
+                    let t = cal::days_from_civil(y, m, d) * 86400;
+                    v.push(t);
+                    v.push(t + 86_399);
+                }
+            }
+        }
+        for h in 0..24 {
+            v.push(cal::days_from_civil(2024, 2, 29) * 86400 + h * 3600 + 1799);
+        }
+        for c in 1..=99 {
+            v.push(cal::days_from_civil(c * 100, 1, 1) * 86400);
+        }
+    }
     v.push(cal::days_from_civil(1, 1, 1) * 86400);
     v.push(cal::days_from_civil(1, 12, 31) * 86400 + 86399);
     v.push(cal::days_from_civil(9999, 1, 1) * 86400);
@@ -105,14 +124,20 @@ impl Prop for C14 {
             ));
         }
         {
+            let mut zs: Vec<(String, i32)> = if tier == Tier::Thorough {
+                // thorough: every usable zone name of the table
+                spec().usable_zones()
+            } else {
+                ["EST", "CET", "IST", "NPT"].iter().filter_map(|n| spec().zones.get(*n).map(|o| (n.to_string(), *o))).collect()
+            };
+            zs.extend([("GMT+5:30".to_string(), 330), ("GMT-3:30".to_string(), -210), ("GMT3".to_string(), 180)]);
             let ts = ts.clone();
             f.push(Family::new(
                 "to-zone",
                 Mode::Full,
-                "'N to Z' and 'N Z' for explicit zones [EST, CET, IST, NPT, GMT+5:30, GMT-3:30, GMT3]: the instant is N, shown in the requested zone whatever the default zone is",
+                "'N to Z' and 'N Z' for explicit zones [EST, CET, IST, NPT, GMT+5:30, GMT-3:30, GMT3] (thorough: every usable zone name of the table): the instant is N, shown in the requested zone whatever the default zone is",
                 move |ch| {
-                    let mut zs: Vec<(String, i32)> = ["EST", "CET", "IST", "NPT"].iter().filter_map(|n| spec().zones.get(*n).map(|o| (n.to_string(), *o))).collect();
-                    zs.extend([("GMT+5:30".to_string(), 330), ("GMT-3:30".to_string(), -210), ("GMT3".to_string(), 180)]);
+
                     let (z, off) = ch.pick(&zs).clone();
                     let n = *ch.pick(&ts);
                     let bare = ch.flag();
